@@ -754,12 +754,19 @@ impl<E: Effect> Executor<E> {
         result: Value,
         heap: Vec<Vec<u8>>,
     ) -> Result<(), Error> {
-        // Inject heap data into the result value
-        let injected_result = self.inject_heap_data(result, &heap)?;
+        // Only a process whose open select lists `awaited` is waiting for this result (the entry
+        // is created by `initialize_select` and removed by `complete_select`). A notification
+        // that arrives after the select has completed through another source is dropped, so
+        // nothing is injected for it.
+        let listed = self
+            .get_process(awaiter)
+            .is_some_and(|process| process.awaiting.contains_key(&awaited));
+        if listed {
+            // Inject heap data into the result value
+            let injected_result = self.inject_heap_data(result, &heap)?;
 
-        // Store the result in the process's awaiting map (retaining as it enters storage, and
-        // releasing a result already stored for the same target).
-        if self.get_process(awaiter).is_some() {
+            // Store the result in the process's awaiting map (retaining as it enters storage,
+            // and releasing a result already stored for the same target).
             self.retain(&injected_result);
             let previous = self
                 .get_process_mut(awaiter)
@@ -2687,6 +2694,22 @@ impl<E: Effect> Executor<E> {
             }
             if let Some((_, message)) = &state.receiving {
                 self.release(message);
+            }
+            // The awaits registered for this select end with it: a result or failure of one of
+            // its targets that arrives later must no longer reach this process.
+            let dropped: Vec<Value> = match self.get_process_mut(pid) {
+                Some(process) => state
+                    .sources
+                    .iter()
+                    .filter_map(|source| match source {
+                        Value::Process(target, _) => process.awaiting.remove(target).flatten(),
+                        _ => None,
+                    })
+                    .collect(),
+                None => Vec::new(),
+            };
+            for value in &dropped {
+                self.release(value);
             }
         }
 
